@@ -190,6 +190,8 @@ func runC17(r *ev.Run) {
 					"Flush":     func() error { return h.s.Flush() },
 					"Search":    func() error { _, err := h.s.NewSearch().WithText("common").Execute(); return err },
 					"Train":     func() error { return h.s.Train([][]float32{{1, 2}}) },
+					// no return value: must simply neither panic nor block
+					"TriggerCompaction": func() error { h.s.TriggerCompaction(); return fmt.Errorf("(no result)") },
 				}
 				for name, f := range checks {
 					done := make(chan error, 1)
@@ -366,6 +368,7 @@ func runC17(r *ev.Run) {
 			go2("Search", func(i int) error { _, err := s.NewSearch().WithText("common").WithK(5).Execute(); return err })
 		}
 		go2("Flush", func(i int) error { return s.Flush() })
+		go2("TriggerCompaction", func(i int) error { s.TriggerCompaction(); return fmt.Errorf("(no result)") })
 		closeErr := make(chan error, 1)
 		go func() {
 			for i := 0; i < rng.IntN(50); i++ {
@@ -400,6 +403,14 @@ func runC17(r *ev.Run) {
 		if _, err := s.Add(docs[0].Vec, docs[0].Text, docs[0].Meta); err == nil {
 			rep("own.closed-handle-op-succeeds", "Add succeeded after Close returned")
 		}
+		func() {
+			defer func() {
+				if p := recover(); p != nil {
+					rep("own.closed-handle-op-panics", fmt.Sprintf("TriggerCompaction after Close panicked: %v", p))
+				}
+			}()
+			s.TriggerCompaction()
+		}()
 		s2, err := p.open(dir)
 		if err != nil {
 			rep("own.open-fails-on-free-directory", fmt.Sprintf("Open after the racing Close failed: %v", err))
